@@ -6,16 +6,19 @@ From Common Require Import Base.
 Open Scope N_scope.
 
 (* requiredPermissions is nil (None) or a possibly empty list *)
-Record flags := mkFlags { must_auth : bool; can_auth : bool; lightweight : bool; perms : option (list N) }.
+(* valid: the route has payload validations (len(route.validations) > 0) *)
+Record flags := mkFlags { must_auth : bool; can_auth : bool; lightweight : bool; perms : option (list N);
+                          valid : bool }.
 
 (* Router.New: nothing required *)
-Definition new_route : flags := mkFlags false false false None.
+Definition new_route : flags := mkFlags false false false None false.
 
 Inductive call :=
 | Authentication (b : bool)
 | LightWeight (b : bool)
 | Permissions (ps : list N)
-| CanAuthenticate (b : bool).
+| CanAuthenticate (b : bool)
+| ValidateUsing.
 
 Definition memN (p : N) (l : list N) : bool := existsb (N.eqb p) l.
 Definition add_perms (old ps : list N) : list N :=
@@ -23,12 +26,13 @@ Definition add_perms (old ps : list N) : list N :=
 
 Definition apply1 (f : flags) (c : call) : flags :=
   match c with
-  | Authentication b => mkFlags b (can_auth f) (lightweight f) (perms f)
-  | LightWeight b => mkFlags (negb b) (can_auth f) b (perms f)
+  | Authentication b => mkFlags b (can_auth f) (lightweight f) (perms f) (valid f)
+  | LightWeight b => mkFlags (negb b) (can_auth f) b (perms f) (valid f)
   | Permissions ps =>
       mkFlags true (can_auth f) (lightweight f)
-              (Some (add_perms (match perms f with Some l => l | None => [] end) ps))
-  | CanAuthenticate b => mkFlags (must_auth f) b (lightweight f) (perms f)
+              (Some (add_perms (match perms f with Some l => l | None => [] end) ps)) (valid f)
+  | CanAuthenticate b => mkFlags (must_auth f) b (lightweight f) (perms f) (valid f)
+  | ValidateUsing => mkFlags (must_auth f) (can_auth f) (lightweight f) (perms f) true
   end.
 Definition build (cs : list call) : flags := fold_left apply1 cs new_route.
 
@@ -50,9 +54,13 @@ Definition granted (c : cred) (p : N) : bool :=
 
 Inductive response := Invoked | Status (n : N).
 
-(* media_ok: the Accept / Content-Type checks pass; post_ok: parameter, paging, payload validation
-   pass, the route is not a redirect and has a handler *)
-Definition serve (f : flags) (c0 : cred) (lookup0 : N -> bool) (media_ok post_ok : bool) : response :=
+(* media_ok: the Accept / Content-Type checks pass; post_ok: parameter and paging checks pass, the
+   route is not a redirect and has a handler; body: None when the request has no body reader
+   (r.Body == nil), Some v when there is one and v says whether it satisfies one of the route's
+   validations.  The validation block runs only while status is still 200: it sets 400 and goes back
+   to 200 when one validation accepts the body. *)
+Definition serve (f : flags) (c0 : cred) (lookup0 : N -> bool) (media_ok post_ok : bool)
+                 (body : option bool) : response :=
   let c := if lightweight f then zero_cred lookup0 else c0 in
   if negb (lightweight f) && locked c0 then Status 429
   else if negb (lightweight f) && negb (authed c0) && must_auth f then Status 403
@@ -72,7 +80,11 @@ Definition serve (f : flags) (c0 : cred) (lookup0 : N -> bool) (media_ok post_ok
       else st1 in
     let st3 := if (st2 =? 200) && negb post_ok then 400 else st2 in
     if (st3 =? 200) && must_auth f && negb (authed c) && can_auth f then Status 401
-    else if st3 =? 200 then Invoked else Status st3.
+    else
+      let st4 := if (st3 =? 200) && valid f
+                 then match body with Some v => if v then 200 else 400 | None => st3 end
+                 else st3 in
+      if st4 =? 200 then Invoked else Status st4.
 
 (* flag combinations for which the gate enforces what the declaration says *)
 Definition safe_flags (f : flags) : bool :=
